@@ -619,6 +619,15 @@ var builtinModel = map[string]ModelFunc{
 		}
 		return FuncResult{Unknown: true, V: Num(0)}
 	},
+	"bool": func(m *Machine, a []Value) FuncResult {
+		if len(a) != 1 {
+			return FuncResult{Err: true}
+		}
+		if a[0].K == VBool {
+			return FuncResult{V: a[0], HasValue: true}
+		}
+		return FuncResult{Unknown: true, V: Bool(false)}
+	},
 	"random":       func(m *Machine, a []Value) FuncResult { return FuncResult{Unknown: true, V: Num(0)} },
 	"dice":         func(m *Machine, a []Value) FuncResult { return FuncResult{Unknown: true, V: Num(1)} },
 	"random_range": func(m *Machine, a []Value) FuncResult { return FuncResult{Unknown: true, V: Num(0)} },
